@@ -345,6 +345,14 @@ def run(chk):
         "adversarial-names": {"a": ("input", []), "b_c": ("input", []), "a_b": ("input", []), "c": ("input", []), "xor_inv_g": ("input", []),
                               "g": ("xnor", ["a", "b_c", "xor_inv_g"]), "h": ("xor", ["a_b", "c", "a"])},
     }
+    # parity gates whose fan-in (by name) begins another parity gate's fan-in, in every type pairing and under gate names on both
+    # sides of each other (a sharing of partial parities between gates has to mind which gates invert)
+    for tn_ in ("xor", "xnor"):
+        for tw_ in ("xor", "xnor"):
+            for gn_, gw_ in (("g1", "g2"), ("zz", "aa"), ("n_7", "m"), ("k", "k_w")):
+                multi[f"nested-parity-fanins::{tn_}2-{tw_}3-{tw_}4::{gn_}/{gw_}"] = {
+                    "i0": ("input", []), "i1": ("input", []), "i2": ("input", []), "i3": ("input", []),
+                    gn_: (tn_, ["i0", "i1"]), gw_: (tw_, ["i0", "i1", "i2"]), gw_ + "_4": (tw_, ["i0", "i1", "i2", "i3"]), "o": ("and", [gn_, gw_, gw_ + "_4"])}
     for mname, spec in multi.items():
         r, types, fanin = encode(spec)
         n_eval += 1
